@@ -81,6 +81,22 @@ theorem bucketIndex_range (step n : Nat) (d : Int) (h : rangePanics step n d = f
   · right; refine ⟨h1, ?_⟩; omega
   · left; omega
 
+/-- `D = max (s·⌊d/s⌋) s = s·(k+1)` -/
+theorem nominal_eq (s d : Nat) : nominal s d = s * (bucketIndex s (d : Int) + 1) := by
+  have hk := bucketIndex_succ s (d : Int) (Int.natCast_nonneg d)
+  simp only [Int.toNat_natCast] at hk
+  unfold nominal
+  rw [hk]
+  generalize d / s = q
+  rcases Nat.eq_zero_or_pos q with hq | hq
+  · subst hq; simp
+  · have h2 : s * 1 ≤ s * q := Nat.mul_le_mul_left s hq
+    rw [Nat.max_eq_left hq, Nat.max_eq_left (by omega)]
+
+theorem fireTime_eq (s L k : Nat) : fireTime s L k = L * s + s * (k + 1) := by
+  unfold fireTime
+  rw [Nat.add_assoc, Nat.add_mul, Nat.mul_comm (k + 1) s]
+
 /-! ### frame facts -/
 
 @[simp] theorem upd_same {α : Type} (f : Nat → α) (i : Nat) (v : α) : upd f i v i = v := by simp [upd]
@@ -542,5 +558,91 @@ theorem run_mono (v : Variant) (s : State) (acts : List Act) :
 
 theorem run_append (v : Variant) (s : State) (a b : List Act) : run v s (a ++ b) = run v (run v s a) b := by
   simp [run, List.foldl_append]
+
+/-! ### erasure: the ghost fields are never read by the real part -/
+
+/-- the non-ghost part of a state -/
+structure Real where
+  n : Nat
+  step : Nat
+  pos : Nat
+  slot : Nat → Nat
+  closed : Nat → Bool
+  nextChan : Nat
+  dblClose : Bool
+  tpc : TPc
+  tpos : Nat
+  tlast : Nat
+  rpc : Nat → RPc
+  rk : Nat → Nat
+  rpos : Nat → Nat
+  rdata : Nat → Nat
+  panics : List (Nat × Int)
+
+def real (s : State) : Real :=
+  { n := s.n, step := s.step, pos := s.pos, slot := s.slot, closed := fun c => (s.closedBy c).isSome,
+    nextChan := s.nextChan, dblClose := s.dblClose, tpc := s.tpc, tpos := s.tpos, tlast := s.tlast,
+    rpc := s.rpc, rk := s.rk, rpos := s.rpos, rdata := s.rdata, panics := s.panics }
+
+def tickReal (v : Variant) (r : Real) : Real :=
+  match r.tpc with
+  | .loadPos => { r with tpos := r.pos, tpc := if v.swapFirst then .swapSlot else .storePos }
+  | .storePos => { r with pos := (r.tpos + 1) % r.n, tpc := if v.swapFirst then .close else .swapSlot }
+  | .swapSlot =>
+    { r with tlast := r.slot r.tpos, slot := upd r.slot r.tpos r.nextChan, nextChan := r.nextChan + 1,
+             tpc := if v.swapFirst then .storePos else .close }
+  | .close =>
+    { r with closed := upd r.closed r.tlast true, dblClose := r.dblClose || r.closed r.tlast, tpc := .loadPos }
+
+def reqReal (v : Variant) (t : Nat) (r : Real) : Real :=
+  match r.rpc t with
+  | .idle => r
+  | .loadPos => { r with rpos := upd r.rpos t r.pos, rpc := upd r.rpc t .loadSlot }
+  | .loadSlot =>
+    let c := r.slot ((r.rpos t + r.rk t) % r.n)
+    if v.recheck then { r with rdata := upd r.rdata t c, rpc := upd r.rpc t .reloadPos }
+    else { r with rdata := upd r.rdata t c, rpc := upd r.rpc t .idle }
+  | .reloadPos =>
+    if r.rpos t = r.pos then { r with rpc := upd r.rpc t .idle } else { r with rpc := upd r.rpc t .loadPos }
+
+def invokeReal (t : Nat) (d : Int) (r : Real) : Real :=
+  match r.rpc t with
+  | .idle =>
+    if rangePanics r.step r.n d then { r with panics := (t, d) :: r.panics }
+    else { r with rk := upd r.rk t (bucketIndex r.step d), rpc := upd r.rpc t .loadPos }
+  | _ => r
+
+def stepReal (v : Variant) (r : Real) : Act → Real
+  | .tick => tickReal v r
+  | .invoke t d => invokeReal t d r
+  | .reset t base arg => invokeReal t (resetInterval r.step base arg) r
+  | .req t => reqReal v t r
+
+theorem real_invoke (t : Nat) (d : Int) (s : State) : real (invokeStep t d s) = invokeReal t d (real s) := by
+  unfold invokeStep invokeReal
+  cases hp : s.rpc t <;> simp [real, hp]
+  by_cases hr : rangePanics s.step s.n d = true <;> simp [hr]
+
+/-- the real part evolves on its own: ghost fields are never read -/
+theorem real_step (v : Variant) (s : State) (a : Act) : real (step v s a) = stepReal v (real s) a := by
+  cases a with
+  | tick =>
+    simp only [step, stepReal]
+    unfold tickStep tickReal
+    cases ht : s.tpc <;> simp [real, ht]
+    funext c
+    by_cases hc : c = s.tlast <;> simp [upd, hc]
+  | invoke t d => exact real_invoke t d s
+  | reset t base arg => exact real_invoke t _ s
+  | req t =>
+    simp only [step, stepReal]
+    unfold reqStep reqReal
+    cases hp : s.rpc t <;> simp [real, hp]
+    · by_cases hv : v.recheck = true <;> simp [hv, complete]
+    · by_cases hc : s.rpos t = s.pos <;> simp [hc, complete]
+
+theorem erasure (v : Variant) (s s' : State) (a : Act) (h : real s = real s') :
+    real (step v s a) = real (step v s' a) := by
+  rw [real_step, real_step, h]
 
 end Got.Lemmas.Wheel
